@@ -119,7 +119,8 @@ fn steerable(rng: &mut Rng) -> Scenario {
         batch: rng.range(1, n + 1),
         epochs: rng.range(1, 30) as i32,
         val,
-        early_tol: rng.range(1, 6) as i32,
+        // (now and then the 'never stop early' idiom: the largest tolerance there is)
+        early_tol: if rng.chance(0.02) { i32::MAX } else { rng.range(1, 6) as i32 },
         eval: None,
         acc_tol: 1e-3,
         pred: Vec::new(),
@@ -208,6 +209,7 @@ impl Property for C13 {
             "shape_oscillating",
             "shape_plateau",
             "tolerance_1",
+            "tolerance_i32_max",
             "tolerance_ge_4",
             "stop_at_first_possible_epoch",
             "stop_later_than_first_possible_epoch",
@@ -248,10 +250,10 @@ impl Property for C13 {
                 let v = rng.range(1, 4);
                 sc.val = Some(gen_data(rng, &sc.net, v));
             }
-            sc.early_tol = rng.range(1, 5) as i32;
+            sc.early_tol = if rng.chance(0.03) { i32::MAX } else { rng.range(1, 5) as i32 };
             sc.epochs = rng.range(1, 12) as i32;
             if rng.chance(0.4) {
-                sc.print = Some(rng.pick(&[1i32, 2, 3, 5, 7, 50]));
+                sc.print = Some(rng.pick(&[1i32, 2, 3, 5, 7, 50, i32::MAX]));
             }
             sc
         };
@@ -284,7 +286,46 @@ impl Property for C13 {
         }
         let got = match got {
             Ok(g) => g,
-            Err(e) => return Outcome::Degenerate(format!("learn panics: {}", panic_class(&e))),
+            Err(e) => {
+                // The networks' own limits (shape panics, a NaN loss, an arg-max over a NaN
+                // validation prediction) do not depend on the tolerance or on `print`. If the
+                // same run with a tolerance that is merely larger than the budget and without
+                // printing does not end in the same panic, the panic belongs to learn's
+                // stopping / reporting bookkeeping: training stopped (crashed) although the
+                // stopping condition cannot hold.
+                let mut plain = sc.clone();
+                plain.print = None;
+                if plain.val.is_some() {
+                    plain.early_tol = sc.epochs.max(0).saturating_add(5);
+                }
+                if plain.early_tol != sc.early_tol || plain.print != sc.print {
+                    let mut lenient = case.env.clone();
+                    lenient.lenient = true;
+                    let (again, _) = run_env(&lenient, |ctx| execute(&plain, ctx));
+                    let same = match &again {
+                        Err(a) => panic_class(a) == panic_class(&e),
+                        Ok(_) => false,
+                    };
+                    if !same {
+                        return Outcome::Violation(Violation {
+                            class: "learn_panics_for_this_tolerance_or_print".into(),
+                            detail: format!(
+                                "learn panics ({}) with tolerance {} / print {:?}, but {} with tolerance {} and no printing",
+                                panic_class(&e),
+                                sc.early_tol,
+                                sc.print,
+                                match &again {
+                                    Ok(_) => "completes".to_string(),
+                                    Err(a) => format!("panics differently ({})", panic_class(a)),
+                                },
+                                plain.early_tol
+                            ),
+                            signature: json!({ "tolerance": tol, "with_validation": sc.val.is_some() }),
+                        });
+                    }
+                }
+                return Outcome::Degenerate(format!("learn panics: {}", panic_class(&e)));
+            }
         };
         got.train.iter().chain(got.val_loss.iter()).chain(got.val_acc.iter()).for_each(|x| stats.observe(x.to_bits() as u64));
         for t in got.params.iter() {
